@@ -1,0 +1,54 @@
+//go:build verif
+
+package currency
+
+// Contracts for the goblvc verifier (see /verif/DESIGN.md). Comments only.
+//
+// The currency registry is a table built at init; it is modelled by two
+// uninterpreted functions of the code (assumption X-CURRENCY).
+//@ spec defined(c Code) bool = uninterpreted
+//@ spec subunits(c Code) int = uninterpreted
+//
+//@ func Get(c) (d)
+//@   trusted X-CURRENCY: registry lookup; nil for an unknown code, else the immutable definition
+//@   ensures defined(c) <==> d != nil
+//@   ensures d != nil ==> d.Subunits == subunits(c) && subunits(c) >= 0 && subunits(c) <= 4 && allocated(d)
+//
+//@ func (c Code) Def() (d)
+//@   ensures defined(c) <==> d != nil
+//@   ensures d != nil ==> d.Subunits == subunits(c) && subunits(c) >= 0 && subunits(c) <= 4 && allocated(d)
+//
+//@ func (d *Def) Zero() (r)
+//@   requires d != nil
+//@   ensures r.value == 0 && r.exp == d.Subunits
+//
+//@ func (d *Def) Rescale(a) (r)
+//@   requires d != nil
+//@   ensures r == num.rescaleS(a, d.Subunits)
+//
+//@ func (d *Def) RescaleUp(a) (r)
+//@   requires d != nil
+//@   ensures d.Subunits > a.exp ==> r == num.rescaleS(a, d.Subunits)
+//@   ensures d.Subunits <= a.exp ==> r == a
+//
+// conversion: the product with the rate at the amount's own precision, then the
+// destination currency's precision (both half away from zero)
+//@ spec convS(a num.Amount, rate num.Amount, sub int) num.Amount = num.rescaleS(num.Amount(rha(a.value * rate.value, pow10(rate.exp)), a.exp), sub)
+//
+//@ func (er *ExchangeRate) Convert(amount) (r)
+//@   requires er != nil && defined(er.To)
+//@   ensures r == convS(amount, er.Amount, subunits(er.To))
+//
+//@ pred ratesOK(rates []*ExchangeRate) bool = forall i int :: 0 <= i && i < len(rates) ==> rates[i] != nil
+//@ func MatchExchangeRate(rates, from, to) (r)
+//@   requires ratesOK(rates)
+//@   ensures from == to ==> r == nil
+//@   ensures r != nil ==> from != to && (exists i int :: 0 <= i && i < len(rates) && rates[i] == r && r.From == from && r.To == to && (forall j int :: 0 <= j && j < i ==> !(rates[j].From == from && rates[j].To == to)))
+//@   ensures r == nil && from != to ==> (forall i int :: 0 <= i && i < len(rates) ==> !(rates[i].From == from && rates[i].To == to))
+//@   loop 1 invariant forall j int :: 0 <= j && j < idx ==> !(rates[j].From == from && rates[j].To == to)
+//
+//@ func Convert(rates, from, to, amount) (r)
+//@   requires ratesOK(rates) && (forall i int :: 0 <= i && i < len(rates) ==> defined(rates[i].To))
+//@   ensures from == to ==> r != nil && *r == amount && fresh(r)
+//@   ensures from != to && r != nil ==> fresh(r) && (exists i int :: 0 <= i && i < len(rates) && rates[i].From == from && rates[i].To == to && *r == convS(amount, rates[i].Amount, subunits(to)) && (forall j int :: 0 <= j && j < i ==> !(rates[j].From == from && rates[j].To == to)))
+//@   ensures from != to && r == nil ==> (forall i int :: 0 <= i && i < len(rates) ==> !(rates[i].From == from && rates[i].To == to))
